@@ -1,5 +1,5 @@
 //vp:target x/lend/keeper/zz_vp_c12_lend.go
-//vp:props C12 C08
+//vp:props C12 C08 C14
 //vp:load ./app
 //go:build verif
 
